@@ -200,19 +200,17 @@ Proof.
 Qed.
 
 (* the decoded line of a screen that shows [cellss] (h lines of width w printed from (x0,y0),
-   scrolled as needed) on an otherwise blank screen *)
-Lemma decode_line_chor (H : Z) (s' : Z -> Z -> cell) (x0 w rest : nat) (y0 : Z) (cellss : list (list cell)) :
+   sc lines scrolled) on an otherwise blank screen *)
+Lemma decode_line_shown (H : Z) (s' : Z -> Z -> cell) (x0 w rest : nat) (y0 sc : Z) (cellss : list (list cell)) :
   Forall (fun c => length c = w) cellss ->
-  (forall y x, 0 <= y < H -> s' y x = chor_screen H blank_screen y0 (Z.of_nat x0) w cellss y x) ->
+  (forall y x, 0 <= y < H -> s' y x = shown_screen H blank_screen y0 (Z.of_nat x0) w cellss sc y x) ->
   forall y, 0 <= y < H ->
-  let sc := Z.max 0 (y0 + Z.of_nat (length cellss) - H) in
   decode_line s' (x0 + w + rest) y =
     if (y0 <=? y + sc) && (y + sc <? y0 + Z.of_nat (length cellss))
     then repeat None x0 ++ map (option_map decoded_of) (decode_cells None (nth (Z.to_nat (y + sc - y0)) cellss [])) ++ repeat None rest
     else repeat None (x0 + w + rest).
 Proof.
-  intros Hall Hs y Hy. cbv zeta. unfold decode_line.
-  set (sc := Z.max 0 (y0 + Z.of_nat (length cellss) - H)).
+  intros Hall Hs y Hy. unfold decode_line.
   destruct ((y0 <=? y + sc) && (y + sc <? y0 + Z.of_nat (length cellss))) eqn:E.
   - set (line := nth (Z.to_nat (y + sc - y0)) cellss []).
     assert (Hlen : length line = w).
@@ -221,12 +219,12 @@ Proof.
     + rewrite decode_cells_blanks.
       replace (match x0 with O => None | S _ => None end) with (@None pinfo) by (destruct x0; reflexivity).
       rewrite decode_cells_app_blanks, !map_app, !map_repeat'. reflexivity.
-    + intros x Hx. rewrite (Hs y x Hy). unfold chor_screen. fold sc. rewrite E. cbn [andb].
+    + intros x Hx. rewrite (Hs y x Hy). unfold shown_screen. rewrite E. cbn [andb].
       destruct ((Z.of_nat x0 <=? x) && (x <? Z.of_nat x0 + Z.of_nat w)) eqn:E2; [reflexivity|].
       unfold blank_screen. destruct (y + sc <? H); reflexivity.
   - rewrite (row_cells_blank s' y).
     + rewrite <- (app_nil_r (repeat blank_cell _)), decode_cells_blanks. cbn [decode_cells]. rewrite app_nil_r, map_repeat'. reflexivity.
-    + intros x Hx. rewrite (Hs y x Hy). unfold chor_screen. fold sc. rewrite E. cbn [andb].
+    + intros x Hx. rewrite (Hs y x Hy). unfold shown_screen. rewrite E. cbn [andb].
       unfold blank_screen. destruct (y + sc <? H); reflexivity.
 Qed.
 
